@@ -337,3 +337,38 @@ Fixpoint rp_abs_run (W : Z) (b12 : bool) (a : rp_abs) (h : list rp_msg)
   | m :: t => let '(r, a1) := rp_abs_recv W b12 a m in
               let '(rs, a2) := rp_abs_run W b12 a1 t in (r :: rs, a2)
   end.
+
+(* ---------------------------------------------------------------------------------------
+   The nonces under which the recipient's own Sender Key is used when it answers a request
+   (RFC 8613 5.2: the nonce is made from the Partial IV and the id of the endpoint that
+   generated it).  build_and_send_error_pdu / the normal response path choose between
+   - the request's nonce (response without Partial IV): at most one response per request may be
+     protected that way, and
+   - a Partial IV of its own (taken from the sender sequence number, which then advances).
+   As found: the response to an accepted request uses the request's nonce; the Appendix B.1.2
+   "4.01 + Echo" challenge uses an own Partial IV (the same request can be challenged again);
+   4.01 Replay / 4.00 / 4.02 errors are not protected at all. *)
+Inductive rp_nonce := RpNonceReq (req_piv : Z) | RpNonceOwn (own_piv : Z).
+
+(* Some true: own Partial IV; Some false: the request's nonce; None: nothing protected is sent *)
+Definition rp_reply_own_piv (challenge_own : bool) (r : rp_verdict) : option bool :=
+  match r with
+  | RpAccept => Some false
+  | RpRejChallenge => Some challenge_own
+  | _ => None
+  end.
+
+(* nonces used for the replies to a history of requests, the sender sequence number starting at
+   [c]; [challenge_own] = true is the code, false is the Echo challenge sent under the request's
+   nonce *)
+Fixpoint rp_reply_nonces (challenge_own : bool) (c : Z) (h : list rp_msg) (rs : list rp_verdict)
+  : list rp_nonce :=
+  match h, rs with
+  | m :: t, r :: rt =>
+    match rp_m_kind m, rp_reply_own_piv challenge_own r with
+    | RpRequest, Some true => RpNonceOwn c :: rp_reply_nonces challenge_own (c + 1) t rt
+    | RpRequest, Some false => RpNonceReq (rp_m_seq m) :: rp_reply_nonces challenge_own c t rt
+    | _, _ => rp_reply_nonces challenge_own c t rt
+    end
+  | _, _ => []
+  end.
